@@ -8,6 +8,12 @@ claims = {
  "C10": ("proof","Every accumulation step is proved exact against the saturating decimal spec satdec: CSeq, Content-Length, Expires header, Contact expires (saturating at 2^32-1), via loop invariants acc == satdec(digits so far).",
          "satdec is an uninterpreted specification function whose two unfolding equations are axioms (trusted); q parameter, status code and URI port are covered by C08/C14 clauses when those functions are under contract (see evidence).",
          "contract-based deductive verification: loop invariants against a recursive spec function, SMT (QF_ABV + instantiated axioms)"),
+ "C02": ("proof","Law RES (resumed == one-shot, DESIGN.md 4.3) is proved, for all buffers, offsets, suspended states and all pairs of lengths L1 <= L2, for the streaming parsers that carry a 'law RES' clause: skipCRLF, skipLWS, skipLine, skipWS/skipToken/skipTokenDelim (scanner form), ParseCSeqVal, ParseUIntVal (and through it ParseExpiresVal), ParseCallIDVal and ParseNameAddrPVal (and through it ParseFromVal, ParseOneContact). Obligations: the suspended state satisfies the precondition of the resumed call, and the resumed and the one-shot run meet within one loop iteration; callee laws are used as hypotheses at matching call sites.",
+         "PARTIAL: not yet proved for ParseFLine (RES does not discharge in budget), ParseCLenVal, ParseHdrLine, ParseHeaders, ParseOnePAI, the list wrappers, ParseTokenParam, ParseAllURIParams/Hdrs, SkipQuoted (see evidence for the exact list). The induction from per-iteration obligations to whole runs and from one resume to every chunk schedule is a paper argument (DESIGN.md 4.7). For ParseNameAddrPVal the internal saved offset (soffs) is not compared after an error verdict and inside the loop, after a mechanical check that the loop never reads it.",
+         "contract-based deductive verification: relational law by two/three-fold instantiation of per-fragment transition formulas (substitution), callee summaries as uninterpreted functions, SMT"),
+ "C03": ("proof","Law EXT (a verdict other than more-bytes never changes when bytes are appended, DESIGN.md 4.2) is proved for the same functions plus ParseFLine and setFromParamVal, with the documented exemption (POptInputEndF) as a precondition of skipLWS's law: per fragment, a definitive return on the short buffer implies the same return and the same object on the long one, and while the short run continues both runs are in the same configuration.",
+         "PARTIAL: the message parser, header line / header block parsers, the list wrappers and the token-parameter parsers are not yet covered (see evidence). Lock-step induction over iterations is a paper argument (DESIGN.md 4.7).",
+         "contract-based deductive verification: relational law by substitution in per-fragment transition formulas, SMT"),
  "C08": ("proof","ParseFLine has no loop of its own: the exact decomposition of a request line (three tokens separated by single spaces, terminator, method number == table spec) and of a status line (case-insensitive SIP/2.0, three digits, status arithmetic, reason up to the terminator, never a request) are postconditions proved for every buffer and every entry state, over the verified contracts of skipToken/skipLine/skipCRLF/bytescase.Prefix/GetMethodNo.",
          "Stated for a call that starts the line (state flInit on a zeroed PFLine); resumed calls are carried by the RES/EXT laws (C02/C03) when those are claimed.",
          "contract-based deductive verification: unary postconditions, 8-way case split on the parser state, SMT"),
